@@ -134,6 +134,8 @@ PLACEMENTS = {
     "via-symlink": ("link_out/doc", "link_out/graphs", None, False),
     "inside-src": ("src/doc", "src/graphs", None, False),
     "stale-output": ("doc", "graphs", "stale", False),
+    # ... old output that holds a hand-made link `page` to a directory elsewhere: wiping the old output removes the link, not what it leads to
+    "stale-output-page-link": ("doc", "graphs", "stale-link", False),
     "equal-src": ("src", "graphs", None, True),
     "parent-of-src": (".", "graphs", None, True),
     "parent-of-src2": ("../proj", "graphs", None, True),
@@ -160,6 +162,8 @@ OPTSETS = {
     "copy-subdir-outside": dict(page_dir="pages"),
     "copy-subdir-outside-project": dict(page_dir="pages", copy_subdir="../../sibling/keep"),
     "project-copy-subdir": dict(page_dir="pages", copy_subdir="pages/img"),
+    # a real preprocessor run on a .F90 file, with macro definitions that hold characters a shell would interpret
+    "preprocess-macros": dict(preprocess="true", preprocessor="cpp -traditional-cpp -E -D__GFORTRAN__", macro="TOO_MANY=n>100\n       POINTS_TO==>\n       BOTH=a&&b;c"),
     "nosrc": dict(incl_src="false"),
     "externalize": dict(externalize="true"),
     "graphs": dict(graph="true", graph_dir="{graph_dir}", parallel="0"),
@@ -195,6 +199,11 @@ def make_sandbox(placement, optset=None):
         os.symlink("build/generated", root / "proj" / "src")
     if PLACEMENTS[placement][2] == "vendor":
         fordrun.write_tree(root, {"proj/docs/vendor/lib/vend.f90": "module vend\n!! vendored\nend module vend\n", "proj/docs/keep.txt": "keep\n"})
+    if optset == "preprocess-macros":
+        fordrun.write_tree(root, {"proj/src/uses_macro.F90": "module uses_macro\n!! preprocessed\n#ifdef TOO_MANY\ninteger :: big\n#endif\ninteger :: w\nend module uses_macro\n"})
+    if PLACEMENTS[placement][2] == "stale-link":
+        fordrun.write_tree(root, {"proj/doc/index.html": "old", "proj/doc/module/old.html": "<html>old</html>", "sibling/handmade/index.html": "hand-made\n"})
+        os.symlink("../../sibling/handmade", root / "proj" / "doc" / "page")
     if PLACEMENTS[placement][2] == "stale":
         fordrun.write_tree(root, {"proj/doc/src/old.f90": "! stale source copy\n", "proj/doc/module/old.html": "<html>old</html>", "proj/doc/index.html": "old",
                                   "proj/graphs/old.gv": "digraph {}"})
@@ -399,7 +408,7 @@ def main(tier, replay_path=None):
     t0 = time.time()
     core.use_repo()
     if tier == "quick":
-        combos = [(p, o) for p in PLACEMENTS for o in ("default",)] + [(p, o) for p in PLACEMENTS if PLACEMENTS[p][3] for o in ("force", "force+pages")] + [(p, "everything") for p in ("sibling", "via-symlink", "dotdot", "stale-output")] + \
+        combos = [(p, o) for p in PLACEMENTS for o in ("default",)] + [(p, o) for p in PLACEMENTS if PLACEMENTS[p][3] for o in ("force", "force+pages")] + [(p, "everything") for p in ("sibling", "via-symlink", "dotdot", "stale-output", "stale-output-page-link")] + [("stale-output-page-link", "pages"), ("inside-src", "preprocess-macros")] + \
                  [("sibling", o) for o in OPTSETS] + [(p, o) for p in ("nested-new", "dotdot", "inside-src") for o in ("pages-outside", "pages-outside-abs", "copy-subdir-outside", "copy-subdir-outside-project")] + [(p, o) for p in PLACEMENTS if p.startswith("graphdir-") for o in ("graphs", "everything")]
         fault_combos = [("graphdir-is-src", "graphs"), ("sibling", "default"), ("via-symlink", "everything"), ("stale-output", "default"), ("inside-src", "assets"), ("dotdot", "pages"),
                         ("sibling", "project-copy-subdir")]
